@@ -1,6 +1,6 @@
 (* Model of stringify/expr.rs: the expression printer of the stringifier (exact text), with its
    level function and operand accept levels. *)
-From GE Require Export Model.ExprGen.
+From GE Require Export Model.ExprGen Model.WxStr.
 
 Definition sx_binop_level (op : binop) : N :=
   match op with BNullish => L_LogicOr | _ => binop_level op end.
@@ -39,7 +39,6 @@ Definition sx_binop_text (op : binop) : str :=
 
 Section SxPrint.
   Variable names : nat -> str.           (* scope names (plain or mangled) *)
-  Variable lit_str : str -> str.         (* gen_lit_str *)
 
   Definition sx_float (t : str) : str := if str_eqb t (lit "inf") then lit "1e999" else t.
 
@@ -58,7 +57,7 @@ Section SxPrint.
     | EToStr _ => lit "<illegal expression>"      (* panic!("illegal expression") : never reached by the tag printer *)
     | EUndef => lit "undefined"
     | ENull => lit "null"
-    | EStr s => lit_str s
+    | EStr s => wx_lit_str s          (* str_literal: the escapes the expression parser reads back *)
     | EInt z => z_to_str z
     | EFloat t => sx_float t
     | EBool b => if b then lit "true" else lit "false"
@@ -113,29 +112,46 @@ Section SxPrint.
     | _ => false
     end.
 
-  (* a text piece: escaped, and a trailing `{` escaped as well when a binding may follow *)
-  Definition text_piece (whole : bool) (s : str) : str :=
+  (* a text piece: escaped; its trailing `{` is escaped as well when a binding follows in the value *)
+  Definition text_piece (binding_follows : bool) (s : str) : str :=
     let t := escape_html_body s in
-    if whole then t
-    else match rev t with
-         | 123 :: r => rev r ++ lit "&#123;"
-         | _ => t
-         end.
+    if binding_follows then
+      match rev t with
+      | 123 :: r => rev r ++ lit "&#123;"
+      | _ => t
+      end
+    else t.
 
   Definition binding (e : expr) : str := lit "{{" ++ sx_print e L_Cond ++ lit "}}".
 
-  Fixpoint sx_split (e : expr) (whole : bool) : str :=
+  (* string literals only, all blank: as text the value would be dropped when parsed again *)
+  Fixpoint is_blank_literals (e : expr) : bool :=
+    match e with
+    | EStr s => forallb is_template_ws s
+    | EBin BAdd l r => is_blank_literals l && is_blank_literals r
+    | _ => false
+    end.
+
+  Fixpoint starts_with_binding (e : expr) : bool :=
+    match e with
+    | EToStr _ => true
+    | EBin BAdd l _ => starts_with_binding l
+    | _ => false
+    end.
+
+  Fixpoint sx_split (e : expr) (whole follows : bool) : str :=
     match e with
     | EStr s =>
         if whole && negb (match s with [] => true | _ => false end) && forallb is_template_ws s
         then binding e           (* a whitespace-only literal stays a binding *)
-        else text_piece whole s
+        else text_piece follows s
     | EToStr v => binding v
     | EBin BAdd l r =>
-        if is_text_piece l && is_text_piece r then sx_split l false ++ sx_split r false
+        if is_text_piece l && is_text_piece r && negb (whole && is_blank_literals e)
+        then sx_split l false (starts_with_binding r) ++ sx_split r false follows
         else binding e
     | _ => binding e
     end.
 
-  Definition sx_value (e : expr) : str := sx_split e true.
+  Definition sx_value (e : expr) : str := sx_split e true false.
 End SxPrint.
